@@ -15,6 +15,13 @@
 //!   and the stream ends only after the last answers were digested. With paced data the outcome of a backtest is a function of
 //!   (dataset, k) alone, so "concurrent == alone" is checked strictly on fills / positions / balances / realised PnL.
 //!
+//!   or from `SlowData` (own `BacktestMarketData`) on a current-thread runtime whose clock is PAUSED (virtual time): the stream
+//!   sleeps a virtual 2-7 s before every event (far more than any grace period a shutdown could grant), everything else of the
+//!   backtest runs at virtual time "now", so the outcome is again a function of (dataset, k) alone and nothing depends on the
+//!   wall clock: every event must still reach the engine before the Shutdown.
+//! The datasets carry market-stream reconnect notices of BOTH exchanges - before the first item, several in a row in the middle,
+//! after the last item - and every one of them is a dataset event like the items: fed exactly once, in place.
+//!
 //! With the unpaced in-memory data the engine-side fills are a race by construction of the unchanged tree (see `known()`):
 //! there the always-on clauses are the event clauses, the decisions (orders issued), "fills seen are a PREFIX of the fills of
 //! (dataset, k)" and "summary = function of the own engine's history"; the strict comparison runs only with VX_C20_KNOWN=1.
@@ -72,7 +79,7 @@ use smol_str::SmolStr;
 use std::{
     collections::{BTreeMap, HashMap, HashSet, VecDeque},
     panic::{AssertUnwindSafe, catch_unwind},
-    sync::{Arc, Mutex},
+    sync::{Arc, Mutex, atomic::{AtomicUsize, Ordering}},
     time::{Duration, Instant},
 };
 use tokio::sync::Notify;
@@ -275,6 +282,28 @@ impl BacktestMarketData for PacedData {
     }
 }
 
+// ------------------------------------------------------------------------------------------------- slow market data (virtual time)
+/// the same events, each released only after a virtual 2-7 s (the stream also takes that long to end after the last event).
+/// Every stream handed out (= every backtest) has its own rhythm, so concurrent backtests are fed at different virtual instants.
+#[derive(Debug, Clone)]
+struct SlowData { events: Arc<Vec<Ev>>, salt: usize, streams: Arc<AtomicUsize> }
+/// virtual milliseconds the `s`-th stream of a `SlowData` waits before its event `i` (i == len: before ending)
+fn slow_delay_ms(salt: usize, s: usize, i: usize) -> u64 { 2_000 + ((i * 5 + s * 3 + salt) % 6) as u64 * 1_000 }
+impl BacktestMarketData for SlowData {
+    type Kind = DataKind;
+    async fn time_first_event(&self) -> Result<DateTime<Utc>, BarterError> { Ok(t(0)) }
+    async fn stream(&self) -> Result<impl Stream<Item = Ev> + Send + 'static, BarterError> {
+        let (events, salt, s) = (self.events.clone(), self.salt, self.streams.fetch_add(1, Ordering::SeqCst));
+        Ok(futures::stream::unfold(0usize, move |i| {
+            let events = events.clone();
+            async move {
+                tokio::time::sleep(Duration::from_millis(slow_delay_ms(salt, s, i))).await;
+                if i < events.len() { Some((events[i].clone(), i + 1)) } else { None }
+            }
+        }))
+    }
+}
+
 // ------------------------------------------------------------------------------------------------- fixtures
 struct Fixture { instruments: IndexedInstruments, executions: Vec<ExecutionConfig>, asset_names: Vec<String> }
 const INIT_QUOTE: i64 = 1_000_000;
@@ -298,19 +327,32 @@ fn fixture() -> Fixture {
 }
 
 #[derive(Debug, Clone, Copy, PartialEq)]
-enum Exp { M(usize), D }
+enum Exp { M(usize), D(ExchangeId) }
 
-/// n market items (idx 0..n) over the three instruments, with market-stream reconnect notices of the market-data-only exchange in between
+const K: ExchangeId = ExchangeId::Kraken;
+const B: ExchangeId = ExchangeId::BinanceSpot;
+/// reconnect notices (before the first item, before item n/2, after the last item) of dataset variant `variant`
+fn reconnect_layout(variant: usize) -> (&'static [ExchangeId], &'static [ExchangeId], &'static [ExchangeId]) {
+    match variant % 6 { 1 => (&[K], &[], &[]), 2 => (&[B, K, B], &[], &[]), 3 => (&[], &[], &[K]), 4 => (&[], &[K, B, K], &[]), 5 => (&[K, K], &[B, B], &[B, K]), _ => (&[], &[], &[]) }
+}
+
+/// n market items (idx 0..n) over the three instruments, with market-stream reconnect notices of both exchanges (the market-data-only
+/// one and the one with the mock execution link) in between, in front of the first item and behind the last one
 fn dataset(n: usize, variant: usize) -> (Vec<Ev>, Vec<Exp>) {
     let (mut evs, mut exp) = (vec![], vec![]);
+    let (lead, mid, tail) = reconnect_layout(variant);
+    let notices = |evs: &mut Vec<Ev>, exp: &mut Vec<Exp>, which: &[ExchangeId]| for ex in which { evs.push(MarketStreamEvent::Reconnecting(*ex)); exp.push(Exp::D(*ex)); };
+    notices(&mut evs, &mut exp, lead);
     for i in 0..n {
-        if i % 17 == 11 || (variant % 2 == 1 && i == 1) { evs.push(MarketStreamEvent::Reconnecting(ExchangeId::Kraken)); exp.push(Exp::D); }
+        if n >= 2 && i == n / 2 { notices(&mut evs, &mut exp, mid); }
+        if i % 17 == 11 || (variant % 2 == 1 && i == 1) { notices(&mut evs, &mut exp, &[K]); }
         let inst = [0usize, 1, 0, 2, 1, 0, 0, 2, 1][(i + variant) % 9];
         let px = 100 + ((i * 7 + variant * 3) % 13) as u32;
         evs.push(MarketStreamEvent::Item(MarketEvent { time_exchange: t(i as i64), time_received: t(i as i64), exchange: if inst < TRADABLE { ExchangeId::BinanceSpot } else { ExchangeId::Kraken }, instrument: InstrumentIndex(inst),
             kind: DataKind::Trade(PublicTrade { id: i.to_string(), price: px as f64, amount: 1.0, side: Side::Buy }) }));
         exp.push(Exp::M(i));
     }
+    notices(&mut evs, &mut exp, tail);
     (evs, exp)
 }
 
@@ -397,7 +439,13 @@ impl Obs {
 }
 
 #[derive(Clone, Copy, Debug, PartialEq)]
-enum Feed { InMemory, Paced }
+enum Feed { InMemory, Paced, Slow { salt: usize } }
+impl Feed {
+    /// feeds with which the fills a backtest's engine sees are a function of (dataset, k) alone
+    fn deterministic(self) -> bool { !matches!(self, Feed::InMemory) }
+    /// how long (on the clock of the runtime: virtual seconds for the slow feed) a batch may take
+    fn limit_s(self) -> u64 { if matches!(self, Feed::Slow { .. }) { 3_600 } else { 20 } }
+}
 
 struct Batch { obs: Vec<Obs>, stray: Vec<Inner>, error: Option<String> }
 
@@ -413,17 +461,18 @@ fn run_batch(rt: &tokio::runtime::Runtime, on_worker: bool, fx: &Fixture, evs: &
             if concurrent { run_backtests(args, dynamic).await.map(|m| m.summaries) }
             else { let mut out = vec![]; for d in dynamic { out.push(backtest(args.clone(), d).await?); } Ok(out) }
         };
-        let fut = async move { tokio::time::timeout(Duration::from_secs(20), fut).await };
+        let fut = async move { tokio::time::timeout(Duration::from_secs(feed.limit_s()), fut).await };
         catch_unwind(AssertUnwindSafe(|| if on_worker { rt.block_on(async { rt.spawn(fut).await }) } else { Ok(rt.block_on(fut)) }))
     }}; }
     let res = match feed {
         Feed::InMemory => go!(MarketDataInMemory::new(evs.clone())),
         Feed::Paced => go!(PacedData { events: evs.clone(), reg: reg.clone(), n_exec: fx.executions.len() }),
+        Feed::Slow { salt } => go!(SlowData { events: evs.clone(), salt, streams: Arc::new(AtomicUsize::new(0)) }),
     };
     let (sums, error): (Vec<BacktestSummary<Daily>>, Option<String>) = match res {
         Ok(Ok(Ok(Ok(s)))) => (s, None),
         Ok(Ok(Ok(Err(e)))) => (vec![], Some(format!("backtest returned an error: {e}"))),
-        Ok(Ok(Err(_))) => (vec![], Some("backtests did not finish within 20 s".into())),
+        Ok(Ok(Err(_))) => (vec![], Some(format!("backtests did not finish within {} s{}", feed.limit_s(), if matches!(feed, Feed::Slow { .. }) { " of virtual time" } else { "" }))),
         Ok(Err(e)) => (vec![], Some(format!("backtest task failed: {e}"))),
         Err(_) => (vec![], Some("panic while running the backtests".into())),
     };
@@ -441,7 +490,7 @@ fn run_batch(rt: &tokio::runtime::Runtime, on_worker: bool, fx: &Fixture, evs: &
 struct St { seen: HashSet<&'static str>, n: u64, memo: HashMap<String, (Sum, String)> }
 impl St { fn fail(&mut self, label: &'static str, input: &dyn Fn() -> String, observed: String, expected: String) { if self.seen.insert(label) { report(label, input(), observed, expected); } } }
 
-fn seq_short(v: &[Exp]) -> String { let s: Vec<String> = v.iter().map(|e| match e { Exp::M(i) => format!("{i}"), Exp::D => "R".into() }).collect(); if s.len() > 40 { format!("[{} .. {}] ({} events)", s[..20].join(","), s[s.len() - 10..].join(","), s.len()) } else { format!("[{}]", s.join(",")) } }
+fn seq_short(v: &[Exp]) -> String { let s: Vec<String> = v.iter().map(|e| match e { Exp::M(i) => format!("{i}"), Exp::D(ex) => if *ex == K { "K".into() } else if *ex == B { "B".into() } else { format!("R({})", ex.as_str()) } }).collect(); if s.len() > 40 { format!("[{} .. {}] ({} events)", s[..20].join(","), s[s.len() - 10..].join(","), s.len()) } else { format!("[{}]", s.join(",")) } }
 
 /// clauses about ONE backtest: events, own-engine summary
 fn check_one(st: &mut St, fx: &Fixture, evs: &[Ev], exp: &[Exp], feed: Feed, o: &Obs, input: &dyn Fn() -> String) {
@@ -453,7 +502,7 @@ fn check_one(st: &mut St, fx: &Fixture, evs: &[Ev], exp: &[Exp], feed: Feed, o: 
     if inner.stalled && std::env::var("VX_C20_STALL_IS_FAILURE").is_err() { eprintln!("inconclusive: paced market data gave up waiting for {who}"); return; }
     if inner.stalled { st.fail(L_CONC, input, format!("{who}: paced market data gave up waiting (4 s) for its engine to digest event #{} and the execution answers ({} orders, {} answers, {} fills, {} balance updates)", inner.algo_seen, inner.orders, inner.resp_ok + inner.resp_err, inner.trades, inner.balances), "every answer reaches the engine".into()); return; }
     // events
-    let seen: Vec<Exp> = inner.log.iter().filter_map(|r| match r { Rec::Market(i) => Some(Exp::M(*i)), Rec::Disconnect(ExchangeId::Kraken) => Some(Exp::D), _ => None }).collect();
+    let seen: Vec<Exp> = inner.log.iter().filter_map(|r| match r { Rec::Market(i) => Some(Exp::M(*i)), Rec::Disconnect(ex) => Some(Exp::D(*ex)), _ => None }).collect();
     if seen != exp {
         let is_prefix = seen.len() < exp.len() && exp[..seen.len()] == seen[..];
         st.fail(if is_prefix { L_SKIP } else { L_ORDER }, input, format!("{who}: its engine processed {}", seq_short(&seen)), format!("{} - every dataset event once, in dataset order, before shutdown", seq_short(exp)));
@@ -466,7 +515,8 @@ fn check_one(st: &mut St, fx: &Fixture, evs: &[Ev], exp: &[Exp], feed: Feed, o: 
     // fills seen by the engine: with paced data (and under VX_C20_KNOWN) exactly the fills of (dataset, k), in order; otherwise (answers cut off by
     // the shutdown, notifications of the MockExchange overtaking each other) some of them, each at most once
     let fills = o.fills();
-    let strict = feed == Feed::Paced || known();
+    // (against the complete reference only when the engine was fed the complete dataset: what a truncated feed does to the fills is not a finding of its own)
+    let strict = (feed.deterministic() || known()) && seen == exp;
     let mut rest = ref_fills.clone();
     let subset = fills.iter().all(|f| rest.iter().position(|r| r == f).map(|p| { rest.remove(p); }).is_some());
     if !subset || (strict && fills != ref_fills) {
@@ -495,7 +545,7 @@ fn check_one(st: &mut St, fx: &Fixture, evs: &[Ev], exp: &[Exp], feed: Feed, o: 
 fn check_pair(st: &mut St, feed: Feed, alone: &Obs, conc: &Obs, input: &dyn Fn() -> String) {
     let who = format!("backtest {} (k={})", conc.tag, conc.k);
     if alone.orders() != conc.orders() { st.fail(L_CONC, input, format!("{who} concurrently: orders {:?}", conc.orders()), format!("alone: {:?}", alone.orders())); }
-    if feed == Feed::Paced || known() {
+    if feed.deterministic() || known() {
         if alone.fills() != conc.fills() { st.fail(L_CONC, input, format!("{who} concurrently: {} fills, final positions {:?}", conc.fills().len(), position_of(&conc.fills())), format!("alone: {} fills, final positions {:?}", alone.fills().len(), position_of(&alone.fills()))); }
         match (&alone.sum, &conc.sum) {
             (Some(a), Some(c)) if a.pnl != c.pnl || a.bal != c.bal => st.fail(L_CONC, input, format!("{who} concurrently: realised PnL {:?}, end balances {:?}", c.pnl, c.bal), format!("alone: realised PnL {:?}, end balances {:?}", a.pnl, a.bal)),
@@ -505,23 +555,79 @@ fn check_pair(st: &mut St, feed: Feed, alone: &Obs, conc: &Obs, input: &dyn Fn()
     }
 }
 
+/// one combination: every distinct k run ALONE, then `reps` times all jobs CONCURRENTLY, each compared with its run-alone result
+#[allow(clippy::too_many_arguments)]
+fn combination(st: &mut St, fx: &Fixture, rt_name: &str, rt: &tokio::runtime::Runtime, on_worker: bool, feed: Feed, n: usize, variant: usize, evs: &Arc<Vec<Ev>>, exp: &[Exp], jobs: &[(String, usize)], reps: usize) {
+    let desc = |how: &str, rep: usize| {
+        let (lead, mid, tail) = reconnect_layout(variant);
+        let names = |v: &[ExchangeId]| if v.is_empty() { "none".to_string() } else { v.iter().map(|e| e.as_str()).collect::<Vec<_>>().join(",") };
+        let data = match feed {
+            Feed::InMemory => "MarketDataInMemory".to_string(),
+            Feed::Paced => "PacedData (same events, released as the engine digests them)".to_string(),
+            Feed::Slow { salt } => format!("SlowData (same events; the stream of the s-th backtest sleeps a VIRTUAL 2000+((5i+3s+{salt})%6)*1000 ms before its event #i and before ending: {} s in all for the first one)", (0..=evs.len()).map(|i| slow_delay_ms(salt, 0, i)).sum::<u64>() / 1000),
+        };
+        format!("runtime {rt_name}; market data {data} with {n} items + {} reconnect notices (dataset variant {variant}: item i = trade #i on instrument {:?}[(i+{variant})%9]; stream reconnect notices K = Kraken (market data only), B = BinanceSpot (mock execution link): [{}] before the first item, [{}] before item {}, [{}] after the last item, K before items i%17==11{}; in all {}); backtests (id, k = order on every k-th item) {jobs:?} run {how}; repetition {rep}",
+            exp.iter().filter(|e| matches!(e, Exp::D(_))).count(), [0, 1, 0, 2, 1, 0, 0, 2, 1], names(lead), names(if n >= 2 { mid } else { &[] }), n / 2, names(tail), if variant % 2 == 1 { " and before item 1" } else { "" }, seq_short(exp))
+    };
+    // alone (each distinct k once)
+    let mut alone: HashMap<usize, Obs> = HashMap::new();
+    for (tag, k) in jobs {
+        if alone.contains_key(k) { continue; }
+        let b = run_batch(rt, on_worker, fx, evs, feed, &[(tag.clone(), *k)], false);
+        st.n += 1;
+        let input = &|| desc(&format!("ALONE: only {tag}"), 0);
+        if let Some(e) = &b.error { st.fail(L_SKIP, input, e.clone(), "a summary".into()); }
+        check_one(st, fx, evs, exp, feed, &b.obs[0], input);
+        alone.insert(*k, b.obs[0].clone());
+    }
+    for rep in 0..reps {
+        let b = run_batch(rt, on_worker, fx, evs, feed, jobs, true);
+        st.n += 1;
+        let input = &|| desc("CONCURRENTLY (run_backtests)", rep);
+        if let Some(e) = &b.error { st.fail(L_SKIP, input, e.clone(), format!("{} summaries", jobs.len())); continue; }
+        if b.obs.iter().filter(|o| o.sum.is_some()).count() != jobs.len() { st.fail(L_OWN, input, format!("{} summaries", b.obs.iter().filter(|o| o.sum.is_some()).count()), format!("{}", jobs.len())); }
+        for s in &b.stray { if !s.markets.is_empty() || s.owner.is_some() { st.fail(L_OWN, input, format!("an engine state owned by {:?} processed {} market items", s.owner, s.markets.len()), "one engine per backtest".into()); } }
+        for o in &b.obs {
+            check_one(st, fx, evs, exp, feed, o, input);
+            // the run-alone result of the same k (ids differ only in the position prefix)
+            let a = &alone[&o.k];
+            let mut a = a.clone();
+            if let Some(i) = a.inner.as_mut() { for r in i.log.iter_mut() { if let Rec::Order(c) | Rec::Response { cid: c, .. } = r { *c = c.replacen(&a.tag, &o.tag, 1); } } }
+            check_pair(st, feed, &a, o, input);
+        }
+    }
+}
+
 pub fn run(seed: u64, thorough: bool) -> u64 {
     let mut st = St { seen: HashSet::new(), n: 0, memo: HashMap::new() };
     let fx = fixture();
     let mt = tokio::runtime::Builder::new_multi_thread().worker_threads(4).enable_all().build().expect("runtime");
     let ct = tokio::runtime::Builder::new_current_thread().enable_all().build().expect("runtime");
+    // virtual time: the clock of this runtime only moves (jumps to the next timer) when every task on it is waiting
+    let pt = tokio::runtime::Builder::new_current_thread().enable_all().start_paused(true).build().expect("runtime");
     let hook = std::panic::take_hook();
     std::panic::set_hook(Box::new(|_| {}));
     let mut rng = Rng::seeded(seed, 20);
     let started = Instant::now();
     let budget = Duration::from_millis(if thorough { 48_000 } else { 2_500 });
     let sizes: &[usize] = if thorough { &[0, 1, 2, 3, 7, 12, 30, 64, 150] } else { &[0, 1, 2, 7, 30, 64] };
+    let slow_sizes: &[usize] = if thorough { &[8, 1, 3, 12, 0, 30] } else { &[8, 1, 12] };
     let reps = if thorough { 6 } else { 3 };
     // k-lists: the same backtest N times, distinct parameters, mixtures
     let mut klists: Vec<Vec<usize>> = vec![vec![2, 2], vec![1, 2, 3], vec![3, 1, 3, 2], vec![1; 8], vec![1, 2, 3, 4, 5, 6, 7, 8]];
     if thorough { for n in 2..=8 { klists.push(vec![2; n]); klists.push((0..n).map(|j| 1 + (j * 3) % 5).collect()); } }
     let mut round = 0usize;
     'outer: loop {
+        // a SLOW market data source (virtual time, so neither slow nor timing dependent in wall-clock terms): nothing may be cut off
+        for (si, n) in slow_sizes.iter().enumerate() {
+            let variant = round + si + 1;
+            let (evs, exp) = dataset(*n, variant);
+            let evs = Arc::new(evs);
+            let kl = &klists[(round + si + 1) % klists.len()];
+            let jobs: Vec<(String, usize)> = kl.iter().enumerate().map(|(j, k)| (format!("b{j}k{k}"), *k)).collect();
+            combination(&mut st, &fx, "current-thread with the clock PAUSED (virtual time: it jumps to the next timer whenever every task waits)", &pt, false, Feed::Slow { salt: round * 5 + si }, *n, variant, &evs, &exp, &jobs, 2);
+            if started.elapsed() > budget { break 'outer; }
+        }
         for (si, n) in sizes.iter().enumerate() {
             let variant = round + si;
             let (evs, exp) = dataset(*n, variant);
@@ -532,35 +638,7 @@ pub fn run(seed: u64, thorough: bool) -> u64 {
                     // a k-list per combination, rotating; all of them over the rounds
                     let kl = &klists[(round * 7 + si * 3 + rng.below(klists.len() as u64) as usize) % klists.len()];
                     let jobs: Vec<(String, usize)> = kl.iter().enumerate().map(|(j, k)| (format!("b{j}k{k}"), *k)).collect();
-                    let desc = |how: &str, rep: usize| format!("runtime {rt_name}; market data {} with {} items + {} reconnect notices (dataset variant {variant}: item i = trade #i on instrument {:?}[(i+{variant})%9], reconnect notice before items i%17==11{}); backtests (id, k = order on every k-th item) {:?} run {how}; repetition {rep}",
-                        if feed == Feed::Paced { "PacedData (same events, released as the engine digests them)" } else { "MarketDataInMemory" }, n, exp.iter().filter(|e| **e == Exp::D).count(), [0, 1, 0, 2, 1, 0, 0, 2, 1], if variant % 2 == 1 { " and before item 1" } else { "" }, jobs);
-                    // alone (each distinct k once)
-                    let mut alone: HashMap<usize, Obs> = HashMap::new();
-                    for (tag, k) in &jobs {
-                        if alone.contains_key(k) { continue; }
-                        let b = run_batch(rt, on_worker, &fx, &evs, feed, &[(tag.clone(), *k)], false);
-                        st.n += 1;
-                        let input = &|| desc(&format!("ALONE: only {tag}"), 0);
-                        if let Some(e) = &b.error { st.fail(L_SKIP, input, e.clone(), "a summary".into()); }
-                        check_one(&mut st, &fx, &evs, &exp, feed, &b.obs[0], input);
-                        alone.insert(*k, b.obs[0].clone());
-                    }
-                    for rep in 0..reps {
-                        let b = run_batch(rt, on_worker, &fx, &evs, feed, &jobs, true);
-                        st.n += 1;
-                        let input = &|| desc("CONCURRENTLY (run_backtests)", rep);
-                        if let Some(e) = &b.error { st.fail(L_SKIP, input, e.clone(), format!("{} summaries", jobs.len())); continue; }
-                        if b.obs.iter().filter(|o| o.sum.is_some()).count() != jobs.len() { st.fail(L_OWN, input, format!("{} summaries", b.obs.iter().filter(|o| o.sum.is_some()).count()), format!("{}", jobs.len())); }
-                        for s in &b.stray { if !s.markets.is_empty() || s.owner.is_some() { st.fail(L_OWN, input, format!("an engine state owned by {:?} processed {} market items", s.owner, s.markets.len()), "one engine per backtest".into()); } }
-                        for o in &b.obs {
-                            check_one(&mut st, &fx, &evs, &exp, feed, o, input);
-                            // the run-alone result of the same k (ids differ only in the position prefix)
-                            let a = &alone[&o.k];
-                            let mut a = a.clone();
-                            if let Some(i) = a.inner.as_mut() { for r in i.log.iter_mut() { if let Rec::Order(c) | Rec::Response { cid: c, .. } = r { *c = c.replacen(&a.tag, &o.tag, 1); } } }
-                            check_pair(&mut st, feed, &a, o, input);
-                        }
-                    }
+                    combination(&mut st, &fx, rt_name, rt, on_worker, feed, *n, variant, &evs, &exp, &jobs, reps);
                     if started.elapsed() > budget { break 'outer; }
                 }
             }
